@@ -1,7 +1,180 @@
-(* C13 placeholder: theorems land with Proofs/WorldProofs.v *)
-From Coq Require Import ZArith List.
-From V Require Import Result World.
+(* C13 -- symbolic_expressions_at (and the _offset variant) on a byte interval returns exactly one (interval, offset,
+   expression) triple for every stored expression whose address (offset) is a member of the query range, in increasing
+   offset order, and nothing for an interval without an address; on a section, module or IR it returns the union over the
+   contained intervals, except that expressions stored beyond their interval's declared extent may be omitted.
+   Model: Model/World.v (symx = ByteInterval._symbolic_expressions as an offset-sorted association list, sd_set, the
+   OSymx* operations, bi_symx_at, bi_symx_at_off, sec_symx_at), Model/WorldRun.v (query, method 8: the module / IR scan),
+   Model/WorldGuard.v.
+   Invariant: InvDefs.SymxSorted (part of WorldInv.InvAll); the section scope also uses Forest, SyncAll, NonNeg.
+   Only property theorems here; proofs in Proofs/SymxProofs.v, LookupProofs.v, WorldInv.v, WorldProps.v. *)
+From Coq Require Import ZArith List Bool.
+From V Require Import Result LazyTree World WorldGuard WorldRun ForestDefs InvDefs WorldInv WorldProps.
+From V Require Import SymxProofs.
+From V Require LookupBase LookupProofs ScheduleProofs.
 Import ListNotations.
-Theorem C13_new_detached : forall w n k u a s f nm p, par (step' w (ONew n k u a s f nm p)) n = None.
-Proof. intros. unfold step', step, par, getn. destruct k; cbn; unfold upd; rewrite Z.eqb_refl; reflexivity. Qed.
-Print Assumptions C13_new_detached.
+Open Scope Z_scope.
+
+(* after any history every interval's map is strictly ascending in the offsets (so: one entry per offset, and
+   iteration is by increasing offset) *)
+Theorem C13_sorted : forall w known, reachable_k w known -> SymxSorted w.
+Proof. exact reach_sorted. Qed.
+
+Theorem C13_one_entry_per_offset : forall w known bi k e, reachable_k w known ->
+  (In (k, e) (symx w bi) <-> dict_get Z.eqb k (symx w bi) = Some e).
+Proof. intros w known bi k e R. exact (lookup_In_iff k e (symx w bi) (reach_sorted w known R bi)). Qed.
+
+(* ---------- byte-interval scope: the answer IS the fresh scan, in map order ---------- *)
+
+Theorem C13_bi_symx_at_exact : forall w bi q,
+  bi_symx_at w bi q = match naddr (getn w bi) with
+                      | None => []
+                      | Some a => map (fun kv => (bi, fst kv, snd kv))
+                                      (filter (fun kv => in_q (a + fst kv) q) (symx w bi))
+                      end.
+Proof. exact bi_symx_at_exact_gen. Qed.
+
+Theorem C13_bi_symx_at_offset_exact : forall w bi q,
+  bi_symx_at_off w bi q = map (fun kv => (bi, fst kv, snd kv)) (filter (fun kv => in_q (fst kv) q) (symx w bi)).
+Proof. exact bi_symx_at_off_exact. Qed.
+
+Theorem C13_bi_symx_at_members : forall w bi q b k e,
+  In (b, k, e) (bi_symx_at w bi q) <->
+  b = bi /\ In (k, e) (symx w bi) /\ exists a, naddr (getn w bi) = Some a /\ in_q (a + k) q = true.
+Proof. exact bi_symx_at_In. Qed.
+
+Theorem C13_bi_symx_at_offset_members : forall w bi q b k e,
+  In (b, k, e) (bi_symx_at_off w bi q) <-> b = bi /\ In (k, e) (symx w bi) /\ in_q k q = true.
+Proof. exact bi_symx_at_off_In. Qed.
+
+Theorem C13_no_address_nothing : forall w bi q, naddr (getn w bi) = None -> bi_symx_at w bi q = [].
+Proof. exact bi_symx_at_noaddr. Qed.
+
+(* increasing offset order, each triple once *)
+Theorem C13_ascending : forall w known bi q, reachable_k w known ->
+  strictly_ascending (map (fun t => snd (fst t)) (bi_symx_at w bi q)) /\
+  strictly_ascending (map (fun t => snd (fst t)) (bi_symx_at_off w bi q)).
+Proof.
+  intros w known bi q R. pose proof (reach_sorted w known R bi) as S.
+  exact (conj (bi_symx_at_ascending w bi q S) (bi_symx_at_off_ascending w bi q S)).
+Qed.
+
+Theorem C13_no_duplicates : forall w known bi q, reachable_k w known ->
+  NoDup (bi_symx_at w bi q) /\ NoDup (bi_symx_at_off w bi q).
+Proof.
+  intros w known bi q R. pose proof (reach_sorted w known R bi) as S.
+  exact (conj (bi_symx_at_NoDup w bi q S) (bi_symx_at_off_NoDup w bi q S)).
+Qed.
+
+(* exactly one triple per qualifying stored expression *)
+Theorem C13_count : forall w bi q a, naddr (getn w bi) = Some a ->
+  length (bi_symx_at w bi q) = length (filter (fun kv => in_q (a + fst kv) q) (symx w bi)).
+Proof. exact bi_symx_at_count. Qed.
+
+(* ---------- section scope: the envelope ----------
+   sound; complete for expressions inside their interval's declared extent (0 <= offset < size); no duplicates; the
+   lookup leaves every map untouched *)
+Theorem C13_sec_symx_at_envelope : forall w known s q, reachable_k w known -> kindof w s = KSec ->
+  let r := snd (sec_symx_at w s q) in
+  (forall bi k e, In (bi, k, e) r ->
+     In bi (kids w s) /\ In (k, e) (symx w bi) /\ exists a, naddr (getn w bi) = Some a /\ in_q (a + k) q = true) /\
+  (forall bi k e a, In bi (kids w s) -> In (k, e) (symx w bi) -> naddr (getn w bi) = Some a ->
+     in_q (a + k) q = true -> 0 <= k < nsize (getn w bi) -> In (bi, k, e) r) /\
+  NoDup r /\
+  (forall bi, symx (fst (sec_symx_at w s q)) bi = symx w bi).
+Proof.
+  intros w known s q R. exact (sec_symx_at_envelope_good w known s q (reach_goodk w known R) (reach_sorted w known R)).
+Qed.
+
+(* what the section lookup computes, exactly: the interval answers of the intervals byte_intervals_on reports *)
+Theorem C13_sec_symx_at_unfold : forall w s q,
+  sec_symx_at w s q = (fst (sec_bis_on w s q), symx_over (fst (sec_bis_on w s q)) (snd (sec_bis_on w s q)) q).
+Proof. exact sec_symx_at_unfold. Qed.
+
+(* ---------- module and IR scope: the same envelope over all their sections ----------
+   symx_scan w secs q is the scan WorldRun.query runs (method 8) over secs = the module's sections, resp. the sections
+   of all modules of the IR *)
+Theorem C13_query_runs_scan : forall w x kf q,
+  (kindof w x = KMod ->
+   query w x 8 kf q = (fst (symx_scan w (secs_of w x) q), L [A 0; triples_sx (snd (symx_scan w (secs_of w x) q))])) /\
+  (kindof w x = KIR ->
+   query w x 8 kf q = (fst (symx_scan w (flat_map (secs_of w) (mods_of w x)) q),
+                       L [A 0; triples_sx (snd (symx_scan w (flat_map (secs_of w) (mods_of w x)) q))])).
+Proof. intros w x kf q. exact (conj (query_symx_mod w x kf q) (query_symx_ir w x kf q)). Qed.
+
+Theorem C13_mod_symx_at_envelope : forall w known m q, reachable_k w known ->
+  let secs := secs_of w m in
+  let r := snd (symx_scan w secs q) in
+  (forall bi k e, In (bi, k, e) r ->
+     exists s, In s secs /\ In bi (kids w s) /\ In (k, e) (symx w bi) /\
+       exists a, naddr (getn w bi) = Some a /\ in_q (a + k) q = true) /\
+  (forall s bi k e a, In s secs -> In bi (kids w s) -> In (k, e) (symx w bi) -> naddr (getn w bi) = Some a ->
+     in_q (a + k) q = true -> 0 <= k < nsize (getn w bi) -> In (bi, k, e) r) /\
+  NoDup r /\
+  LookupBase.Good known (fst (symx_scan w secs q)) /\ LookupBase.agree w (fst (symx_scan w secs q)).
+Proof.
+  intros w known m q R. pose proof (reach_goodk w known R) as G.
+  exact (symx_scan_envelope w known (secs_of w m) q G (reach_sorted w known R) (LookupProofs.secs_of_NoDup known w m G) (LookupProofs.secs_of_kind w m)).
+Qed.
+
+Theorem C13_ir_symx_at_envelope : forall w known ir q, reachable_k w known ->
+  let secs := flat_map (secs_of w) (mods_of w ir) in
+  let r := snd (symx_scan w secs q) in
+  (forall bi k e, In (bi, k, e) r ->
+     exists s, In s secs /\ In bi (kids w s) /\ In (k, e) (symx w bi) /\
+       exists a, naddr (getn w bi) = Some a /\ in_q (a + k) q = true) /\
+  (forall s bi k e a, In s secs -> In bi (kids w s) -> In (k, e) (symx w bi) -> naddr (getn w bi) = Some a ->
+     in_q (a + k) q = true -> 0 <= k < nsize (getn w bi) -> In (bi, k, e) r) /\
+  NoDup r /\
+  LookupBase.Good known (fst (symx_scan w secs q)) /\ LookupBase.agree w (fst (symx_scan w secs q)).
+Proof.
+  intros w known ir q R. pose proof (reach_goodk w known R) as G.
+  exact (symx_scan_envelope w known _ q G (reach_sorted w known R) (ScheduleProofs.ir_secs_NoDup known w ir G) (ScheduleProofs.ir_secs_kind w ir)).
+Qed.
+
+(* non-vacuity: section 3 with intervals 4 (address 100, size 16) and 5 (no address).  Item set, update with a repeated
+   key, setdefault on a present and on an absent key (offset 20 lies beyond the interval's size); then delete, popitem,
+   address changes, whole-map assignment. *)
+Example C13_example :
+  let Q a b s := {| qstart := a; qstop := b; qstep := s |} in
+  let ops1 := [ONew 1 KIR 101 None 0 0 0 PNone; ONew 2 KMod 102 None 0 0 0 PNone; ONew 3 KSec 103 None 0 0 0 PNone;
+     ONew 4 KBI 104 (Some 100) 16 0 0 PNone; ONew 5 KBI 105 None 16 0 0 PNone;
+     OModAppend 1 2; OSetParent 3 (Some 2); OSet 3 [KBI] SUpdate [[4; 5]];
+     OSymxSet 4 8 80; OSymxSet 4 0 81; OSymxUpdate 4 [(4, 82); (12, 83); (4, 84)]; OSymxSetdefault 4 8 85;
+     OSymxSetdefault 4 20 86; OSymxSet 5 0 90] in
+  let ops2 := [OSymxDel 4 0; OSymxPopitem 4; OAttrAddr 4 (Some 200); OAttrAddr 5 (Some 300);
+               OSymxAssign 5 [(6, 91); (2, 92)]] in
+  let wa := fst (run_guarded w0 [] ops1) in
+  let wb := fst (run_guarded w0 [] (ops1 ++ ops2)) in
+  all_guarded_ok w0 [] (ops1 ++ ops2) = true /\
+  symx wa 4 = [(0, 81); (4, 84); (8, 80); (12, 83); (20, 86)] /\
+  bi_symx_at wa 4 (Q 100 200 4) = [(4, 0, 81); (4, 4, 84); (4, 8, 80); (4, 12, 83); (4, 20, 86)] /\
+  bi_symx_at wa 4 (Q 104 113 8) = [(4, 4, 84); (4, 12, 83)] /\
+  bi_symx_at_off wa 4 (Q 0 13 1) = [(4, 0, 81); (4, 4, 84); (4, 8, 80); (4, 12, 83)] /\
+  (bi_symx_at wa 5 (Q 0 1000 1), bi_symx_at_off wa 5 (Q 0 1000 1)) = ([], [(5, 0, 90)]) /\
+  snd (sec_symx_at wa 3 (Q 100 200 1)) = [(4, 0, 81); (4, 4, 84); (4, 8, 80); (4, 12, 83); (4, 20, 86)] /\
+  (* the envelope is real: the expression at offset 20 (address 120) lies beyond interval 4's extent [100, 116) *)
+  (bi_symx_at wa 4 (Q 116 200 1), snd (sec_symx_at wa 3 (Q 116 200 1))) = ([(4, 20, 86)], []) /\
+  step wa (OSymxPop 4 7) = Err EKey /\
+  (symx wb 4, symx wb 5) = ([(8, 80); (12, 83); (20, 86)], [(2, 92); (6, 91)]) /\
+  bi_symx_at wb 4 (Q 100 200 1) = [] /\
+  snd (sec_symx_at wb 3 (Q 200 400 2)) = [(4, 8, 80); (4, 12, 83); (4, 20, 86); (5, 2, 92); (5, 6, 91)] /\
+  snd (symx_scan wb (secs_of wb 2) (Q 200 400 2)) = [(4, 8, 80); (4, 12, 83); (4, 20, 86); (5, 2, 92); (5, 6, 91)] /\
+  snd (query wb 1 8 0 (Q 300 400 1)) = L [A 0; L [L [A 5; A 2; A 92]; L [A 5; A 6; A 91]]].
+Proof. vm_compute. repeat split. Qed.
+
+Print Assumptions C13_sorted.
+Print Assumptions C13_one_entry_per_offset.
+Print Assumptions C13_bi_symx_at_exact.
+Print Assumptions C13_bi_symx_at_offset_exact.
+Print Assumptions C13_bi_symx_at_members.
+Print Assumptions C13_bi_symx_at_offset_members.
+Print Assumptions C13_no_address_nothing.
+Print Assumptions C13_ascending.
+Print Assumptions C13_no_duplicates.
+Print Assumptions C13_count.
+Print Assumptions C13_sec_symx_at_envelope.
+Print Assumptions C13_sec_symx_at_unfold.
+Print Assumptions C13_query_runs_scan.
+Print Assumptions C13_mod_symx_at_envelope.
+Print Assumptions C13_ir_symx_at_envelope.
+Print Assumptions C13_example.
